@@ -36,12 +36,16 @@ type Config struct {
 	// Prefill: heights 1..Prefill of the main branch are written into both
 	// header stores before the client starts (0 = fresh stores).
 	Prefill int
-	// PrefillFilterTip, if >0 and < Prefill, stops the filter headers early.
+	// PrefillFilterTip, if non-zero and < Prefill, stops the filter headers
+	// early (negative: only the genesis filter header).
 	PrefillFilterTip int
 	// WrapDB lets a check wrap the database (crashdb/faultdb/stamps).
 	WrapDB func(walletdb.DB) walletdb.DB
 	// Tweak lets a check adjust the client configuration.
 	Tweak func(*neutrino.Config)
+	// DialGate, if set, returns a channel the dialer waits on before it
+	// lets the connection to peer i be established (nil: no wait).
+	DialGate func(i int) <-chan struct{}
 	// AfterStart is called right after ChainService.Start returned and
 	// before any peer connection is allowed to be established.
 	AfterStart func(s *Sim)
@@ -322,8 +326,11 @@ func Run(t *testing.T, cfg Config, setup func(s *Sim), script func(s *Sim)) (res
 	setupLogging()
 	w := cfg.World
 	fn := cfg.Prefill
-	if cfg.PrefillFilterTip > 0 && cfg.PrefillFilterTip < fn {
+	if cfg.PrefillFilterTip != 0 && cfg.PrefillFilterTip < fn {
 		fn = cfg.PrefillFilterTip
+		if fn < 0 {
+			fn = 0
+		}
 	}
 	dir, err := NewDataDir(w, cfg.Prefill, fn)
 	if err != nil {
@@ -405,6 +412,11 @@ func Run(t *testing.T, cfg Config, setup func(s *Sim), script func(s *Sim)) (res
 					return nil, fmt.Errorf("simulation over")
 				}
 				<-s.gate
+				if cfg.DialGate != nil {
+					if g := cfg.DialGate(p.Idx); g != nil {
+						<-g
+					}
+				}
 				cl, sv := bufPipe(&net.TCPAddr{IP: net.ParseIP("10.9.9.9"), Port: 5555}, a)
 				go p.Serve(sv)
 				return cl, nil
